@@ -617,10 +617,33 @@ Definition init (mw : Z) (m : fmode) (calls : list nat) (nctx : nat) : st :=
 
 Definition fuel := 96%nat.
 
+(* ---- the matcher works on a quotient of the state space ----
+   [view] forgets what no transition reads: the ghost history fields, the results of finished
+   consumer calls, and absolute time (only  clock - batchStart  capped at maxWait+1 while the batch
+   is non-empty, and  deadline - clock  floored at 0 while the timer is armed, are ever compared).
+   [step] commutes with [view] up to [view] (same enabledness, equivalent successors), so a history
+   is producible from [init] by [qstep] iff it is producible by [vstep]; without the quotient the
+   state sets double at every timing choice.  The theorems are about [step]/[qstep], never [vstep]. *)
+Definition norm_consumer (x : consumer) : consumer :=
+  match c_pc x with CDone _ => mkC (c_ctx x) (CDone CCtx) | _ => x end.
+
+Definition view (s : st) : st :=
+  let e := match batch s with [] => 0 | _ => Z.min (clock s - bstart s) (maxw s + 1) end in
+  let t := match tmr s with TmArmed d => TmArmed (e + Z.max (d - clock s) 0) | x => x end in
+  mkSt (maxw s) (mode s)
+       e (srcq s) (fulltok s) (ctxs s) (bgdone s)
+       (ppc_ s) (perr s) (cclosed s)
+       (bpc_ s) (batch s) 0 t (tc s) (wae s) (bclosed s)
+       (wg s) (map norm_consumer (cons s)) (kpc_ s)
+       [] None [] [] [] O false false.
+
+Definition vstep (s : st) (l : lab) : option st :=
+  match qstep s l with Some s' => Some (view s') | None => None end.
+
 (* history acceptance: some run of the model produces exactly the recorded events, in order *)
 Definition accepts_history (mw : Z) (m : fmode) (calls : list nat) (nctx : nat) (evs : list lab) : bool :=
-  accepts qstep vis lab_eqb st_eqb tau_labels (fun _ e => [e]) fuel (init mw m calls nctx) evs.
+  accepts vstep vis lab_eqb st_eqb tau_labels (fun _ e => [e]) fuel (init mw m calls nctx) evs.
 
 Definition first_rejected (mw : Z) (m : fmode) (calls : list nat) (nctx : nat) (evs : list lab) : option nat :=
-  first_reject qstep vis lab_eqb st_eqb tau_labels (fun _ e => [e]) fuel
-               (close qstep vis st_eqb tau_labels fuel [init mw m calls nctx]) evs O.
+  first_reject vstep vis lab_eqb st_eqb tau_labels (fun _ e => [e]) fuel
+               (close vstep vis st_eqb tau_labels fuel [init mw m calls nctx]) evs O.
